@@ -47,6 +47,10 @@ class Monitor:
         self.info: dict[str, int] = {}
         self.action = None  # Action used by the L1 decoder (ANNOUNCE unless the harness says otherwise)
         self.ticks = 0
+        # record-only mode (the repository's own tests run with the contracts on): a broken law is written down and the
+        # post-condition answers True, so that the observed test goes on exactly as it would without the monitor
+        self.record_only = False
+        self.recorded: list[LawViolation] = []
 
     def count(self, label: str, law: str) -> None:
         k = f'{label}:{law}'
@@ -225,6 +229,10 @@ def nlri_shape(x) -> str:
                 return ':no-label'
         if x.safi.has_rd() and getattr(x, '_has_rd', True) is False:
             return ':no-rd'
+        if '.bgpls.' in type(x).__module__ and getattr(x, 'route_d', None) and not x.safi.has_rd():
+            # a BGP-LS object holding a route distinguisher while saying it belongs to the non-VPN family: the recorded
+            # 'family and RD lost' mechanism seen from the other side
+            return ':rd-held-under-non-vpn-family'
     except Exception:  # noqa
         return ''
     return ''
@@ -261,6 +269,11 @@ def law1_pack_nlri_decodes_back(self, negotiated, result) -> bool:
             shape = nlri_shape(self)
             key = 'C15/raises:%s%s:%s' % (label, shape, wit['raises']) if 'raises' in wit else 'C15/roundtrip-nlri:%s/%s%s' % (self.afi, self.safi, shape)
             M.pending = LawViolation(key, what, wit, label, 'L1')
+        if not ok and M.record_only:
+            if M.pending is not None and len(M.recorded) < 2000:
+                M.recorded.append(M.pending)
+            M.pending = None
+            return True
         return ok
     finally:
         M.busy = False
@@ -360,6 +373,11 @@ def law1_pack_attribute_decodes_back(self, negotiated, result) -> bool:
             else:
                 key = 'C15/roundtrip-attr:%d%s' % (code, attr_key_suffix(code, negotiated))
             M.pending = LawViolation(key, what, wit, label, 'L1')
+        if not ok and M.record_only:
+            if M.pending is not None and len(M.recorded) < 2000:
+                M.recorded.append(M.pending)
+            M.pending = None
+            return True
         return ok
     finally:
         M.busy = False
@@ -438,6 +456,11 @@ def law3_equal_objects_hash_and_index_alike(self, other, result) -> bool:
             else:
                 key = 'C15/eq-%s:%s' % (kind, label) + (':' + type(self).__name__ if label.startswith('nlri:') and nlri_sublabel(self) else '')
             M.pending = LawViolation(key, what, wit, label, 'L3')
+        if not ok and M.record_only:
+            if M.pending is not None and len(M.recorded) < 2000:
+                M.recorded.append(M.pending)
+            M.pending = None
+            return True
         return ok
     finally:
         M.busy = False
